@@ -126,16 +126,24 @@ theorem C14_switch_meets_spec (c : Cfg) (path search hash base : Str) (new : Nat
 
 /-! ### the localized segments *are* rewritten -/
 
-/-- what the Boolean judgement `Spec.sameRouteServes` says: if some route of the old locale's table serves `r`
-    (narrow reading `servesRowExact`), then there is an index `i` such that route `i` of the old table serves `r`
-    and route `i` of the new table serves `r'` -/
+/-- **`match_path_segments` succeeds exactly when the route serves the segments** (declarative `Spec.servesRow`:
+    static = the next segment, empty static and unit take nothing, param = one segment, optional param = zero or
+    one, splat = the rest, nothing left at the end) — for every route and list of segments -/
+theorem C14_match_iff_serves (row : Row) (ss : List Str) :
+    (∃ o, matchSegs row ss 0 [] = some o) ↔ Spec.servesRow row ss = true := by
+  rw [← matchSegs_isSome row ss 0 []]
+  cases matchSegs row ss 0 [] <;> simp
+
+/-- what the Boolean judgement `Spec.sameRouteServes` says: if some route of the old locale's table serves `r`,
+    then there is an index `i` such that route `i` of the old table serves `r` and route `i` of the new table
+    serves `r'` -/
 theorem C14_sameRouteServes_iff (tA tB : Tables) (r r' : List Str) :
     Spec.sameRouteServes tA tB r r' = true ↔
-      ((∃ row ∈ tA, Spec.servesRowExact row r = true) →
-        ∃ i rowA rowB, tA[i]? = some rowA ∧ tB[i]? = some rowB ∧
+      ((∃ row ∈ tA, Spec.servesRow row r = true) →
+        ∃ (i : Nat) (rowA rowB : Row), tA[i]? = some rowA ∧ tB[i]? = some rowB ∧
           Spec.servesRow rowA r = true ∧ Spec.servesRow rowB r' = true) := by
   have hp : ∀ (tA tB : Tables), Spec.pairServes tA tB r r' = true ↔
-      ∃ i rowA rowB, tA[i]? = some rowA ∧ tB[i]? = some rowB ∧
+      ∃ (i : Nat) (rowA rowB : Row), tA[i]? = some rowA ∧ tB[i]? = some rowB ∧
         Spec.servesRow rowA r = true ∧ Spec.servesRow rowB r' = true := by
     intro tA
     induction tA with
@@ -154,7 +162,7 @@ theorem C14_sameRouteServes_iff (tA tB : Tables) (r r' : List Str) :
           cases i with
           | zero => simp at hA hB; subst hA; subst hB; exact Or.inl ⟨h1, h2⟩
           | succ i => exact Or.inr ⟨i, ra, rb, by simpa using hA, by simpa using hB, h1, h2⟩
-  simp only [Spec.sameRouteServes, Spec.sameRouteServesIf, Bool.or_eq_true, Bool.not_eq_true', hp]
+  simp only [Spec.sameRouteServes, Bool.or_eq_true, Bool.not_eq_true', hp]
   constructor
   · rintro (h | h) hex
     · obtain ⟨row, hrow, hs⟩ := hex
@@ -162,7 +170,7 @@ theorem C14_sameRouteServes_iff (tA tB : Tables) (r r' : List Str) :
       exact absurd hs (h row hrow)
     · exact h
   · intro h
-    cases hany : tA.any (fun row => Spec.servesRowExact row r) with
+    cases hany : tA.any (fun row => Spec.servesRow row r) with
     | false => exact Or.inl rfl
     | true =>
       rw [List.any_eq_true] at hany
@@ -173,35 +181,31 @@ theorem C14_switchOkStrong_switchOk (names : List Str) (tA tB : Option Tables) (
     (new : Nat) (loc : Option Nat) (out : Str)
     (h : Spec.switchOkStrong names tA tB path search hash base new loc out = true) :
     Spec.switchOk names tA tB path search hash base new loc out = true := by
-  simp only [Spec.switchOkStrong, Spec.switchOkWith] at h
+  simp only [Spec.switchOkStrong] at h
   simp only [Spec.switchOk]
   cases h1 : Spec.afterBase path base with
   | none => rfl
   | some rest =>
-    rw [h1] at h
+    simp only [h1] at h ⊢
     cases h2 : Spec.dropSuffix out (Spec.queryAndFragment search hash) with
-    | none => rw [h2] at h; simp at h
+    | none => simp [h2] at h
     | some p =>
-      rw [h2] at h
+      simp only [h2] at h ⊢
       cases h3 : Spec.dropPrefix (Spec.segments base ++ Spec.localePrefix names new) (Spec.segments p) with
-      | none => rw [h3] at h; simp at h
+      | none => simp [h3] at h
       | some r' =>
-        rw [h3] at h
-        simp only [Bool.and_eq_true] at h
+        simp only [h3, Bool.and_eq_true] at h ⊢
         exact h.1
 
 /-- **Switching rewrites the localized segments** (it does not merely keep them).
 Under the hypotheses of `C14_switch_meets_spec` (well-formed locale names, route tables of the shape the router
 generates — `compatOpt`, which includes that non-empty static segments contain no `/`): `get_new_path` does not
 panic and its result satisfies `Spec.switchOkStrong`: it satisfies `Spec.switchOk`, and when both locales have a
-route table and some route of the old locale serves the old remaining segments (reading `Spec.servesRowExact`),
-the new remaining segments are served by the route with the same index in the new locale's table
-(`C14_sameRouteServes_iff`).  As the two tables differ only in localized static segments, a localized segment of
-the served route is necessarily replaced by its counterpart.
-
-The ideal statement, with the premise "some route of the old locale serves the segments the way `leptos_router`
-does" (`Spec.servesRow`), is `C14_switch_rewrites_localized_full_statement`; it is *false* of `get_new_path`
-(`C14_switch_rewrites_localized_full_refuted`). -/
+route table and some route of the old locale serves the old remaining segments (`Spec.servesRow`, the way
+`leptos_router` serves them), the new remaining segments are served by the route with the same index in the new
+locale's table (`C14_sameRouteServes_iff`).  As the two tables differ only in localized static segments, a localized
+segment of the served route is necessarily replaced by its counterpart.  When several routes serve the old URL the
+code takes the first one; the judgement is existential over the routes, so no hypothesis about ambiguity is needed. -/
 theorem C14_switch_rewrites_localized (c : Cfg) (path search hash base : Str) (new : Nat) (loc : Option Nat)
     (hn : GoodNames c.names) (hnew : new < c.names.length) (hloc : ∀ l, loc = some l → l < c.names.length)
     (hc : Spec.compatOpt (c.lookup (loc.getD 0)) (c.lookup new) = true) :
@@ -216,7 +220,7 @@ theorem C14_switch_rewrites_localized (c : Cfg) (path search hash base : Str) (n
       | some r => rw [h] at hu; simp at hu
     exact ⟨(baseBuilder base (c.name new) (new == 0)).build ++ urlSuffix search hash,
       by simp only [Cfg.getNewPath, Cfg.newPathname, newPathname, hs],
-      by simp [Spec.switchOkStrong, Spec.switchOkWith, hu]⟩
+      by simp [Spec.switchOkStrong, hu]⟩
   | some rest =>
     have hu' := hu
     rw [afterBase_eq] at hu'
@@ -243,18 +247,27 @@ theorem C14_switch_rewrites_localized (c : Cfg) (path search hash base : Str) (n
       · simp only [Cfg.getNewPath, Cfg.newPathname, h1, urlSuffix_eq]
       · have hseg : Spec.segments p = Spec.segments base ++ Spec.localePrefix c.names new ++ r' := by
           simp only [segments_eq, h2, Spec.localePrefix, Cfg.name]
-        rw [← restOf_eq c.names _ loc hloc] at h3 h4
-        simp only [Spec.switchOkStrong, Spec.switchOkWith, hu, dropSuffix_append, hseg, dropPrefix_append, h3, h4,
+        have h3' : Spec.onlyLocalizedChanged (c.lookup (loc.getD 0)) (c.lookup new)
+            (Spec.restOf c.names (segs rest0) loc) r' = true := by
+          rw [restOf_eq c.names _ loc hloc]; exact h3
+        have h4' : Spec.sameRouteServesOpt (c.lookup (loc.getD 0)) (c.lookup new)
+            (Spec.restOf c.names (segs rest0) loc) r' = true := by
+          rw [restOf_eq c.names _ loc hloc]; exact h4
+        simp only [Spec.switchOkStrong, hu, dropSuffix_append, hseg, dropPrefix_append, h3', h4',
           Bool.and_self]
 
-/-- the ideal form of `C14_switch_rewrites_localized`: the premise of the strong judgement is "some route of the old
-    locale serves the old remaining segments" in the full reading `Spec.servesRow` (as `leptos_router` serves them) -/
-def C14_switch_rewrites_localized_full_statement : Prop :=
-  ∀ (c : Cfg) (path search hash base : Str) (new : Nat) (loc : Option Nat),
-    GoodNames c.names → new < c.names.length → (∀ l, loc = some l → l < c.names.length) →
-    Spec.compatOpt (c.lookup (loc.getD 0)) (c.lookup new) = true →
-    ∃ out, c.getNewPath path search hash base new loc = .ok out ∧
-      Spec.switchOkFull c.names (c.lookup (loc.getD 0)) (c.lookup new) path search hash base new loc out = true
+/-- the ideal statement — premise "some route of the old locale serves the old remaining segments the way
+    `leptos_router` does" — which `get_new_path` did not meet before the repair `e02576e` of `match_path_segments`
+    (it was kept as an unproved `def … : Prop`, refuted on the model of the old code); now a theorem.
+    `Spec.switchOkFull` is `Spec.switchOkStrong`. -/
+theorem C14_switch_rewrites_localized_full_statement :
+    ∀ (c : Cfg) (path search hash base : Str) (new : Nat) (loc : Option Nat),
+      GoodNames c.names → new < c.names.length → (∀ l, loc = some l → l < c.names.length) →
+      Spec.compatOpt (c.lookup (loc.getD 0)) (c.lookup new) = true →
+      ∃ out, c.getNewPath path search hash base new loc = .ok out ∧
+        Spec.switchOkFull c.names (c.lookup (loc.getD 0)) (c.lookup new) path search hash base new loc out = true :=
+  fun c path search hash base new loc hn hnew hloc hc =>
+    C14_switch_rewrites_localized c path search hash base new loc hn hnew hloc hc
 
 /-- no table at all (the state before `generate_routes` ran, and the one the harness' plain cases use):
     the remaining segments are kept as they are -/
@@ -482,8 +495,8 @@ example : Spec.switchOk names4 (cfgNested.lookup 0) (cfgNested.lookup 2) "/about
       "/fr/about".toList = true ∧
     Spec.switchOkStrong names4 (cfgNested.lookup 0) (cfgNested.lookup 2) "/about".toList [] [] [] 2 (some 0)
       "/fr/about".toList = false := by decide
-/-- the premise is not idle: the route serves `/about` in both readings -/
-example : Spec.servesRowExact [.static [], .static [], .static "about".toList] ["about".toList] = true ∧
+/-- the premise is not idle: the en route serves `/about`, the fr route does not -/
+example : Spec.servesRow [.static [], .static [], .static "about".toList] ["about".toList] = true ∧
     Spec.servesRow [.static [], .static [], .static "a-propos".toList] ["about".toList] = false := by decide
 
 /-- a route that ends in an index route (`<ParentRoute path="about"><Route path=""/></ParentRoute>`) -/
@@ -493,35 +506,35 @@ private def cfgTrailing : Cfg :=
 private def cfgOptional : Cfg :=
   ⟨names4, [(0, [[.static [], .static "about".toList, .optional "id".toList]]),
             (2, [[.static [], .static "a-propos".toList, .optional "id".toList]])]⟩
+/-- a route with a splat, `users/*rest` -/
+private def cfgSplat : Cfg :=
+  ⟨names4, [(0, [[.static [], .static "users".toList, .splat "rest".toList]]),
+            (2, [[.static [], .static "utilisateurs".toList, .splat "rest".toList]])]⟩
 
-/-- **The ideal statement is false of `get_new_path`** (known limitation of `match_path_segments`, present in the
-    Rust code, mirrored by the model): a route whose last elements consume nothing — here the index route
-    `about` / `""` — is not recognised once the path's segments are used up, so `/about` (en → fr) comes out as
-    `/fr/about`, a URL the fr table does not serve, although the en table serves `/about`. -/
-theorem C14_switch_rewrites_localized_full_refuted : ¬ C14_switch_rewrites_localized_full_statement := by
-  intro h
-  obtain ⟨out, h1, h2⟩ := h cfgTrailing "/about".toList [] [] [] 2 (some 0) names4_good (by decide)
-    (by intro l hl; cases hl; decide) (by decide)
-  have e : cfgTrailing.getNewPath "/about".toList [] [] [] 2 (some 0) = .ok "/fr/about".toList := by decide
-  rw [e] at h1
-  cases h1
-  revert h2
-  decide
-
-/-- the three shapes on which `get_new_path` leaves a localized segment of a served route as it is (each result is
-    accepted by `switchOkStrong`, whose premise is the narrow reading, and rejected by the ideal `switchOkFull`):
-    a trailing empty static segment; an optional parameter that is absent at the end of the route; an optional
-    parameter that is present (it is only recognised when the segment is the parameter's own name, `/about/id`) -/
-example : cfgTrailing.getNewPath "/about".toList [] [] [] 2 (some 0) = .ok "/fr/about".toList ∧
-    Spec.switchOkStrong names4 (cfgTrailing.lookup 0) (cfgTrailing.lookup 2) "/about".toList [] [] [] 2 (some 0) "/fr/about".toList = true ∧
+/-- Regression witnesses of the repair `e02576e`: the three shapes on which the former `match_path_segments` did
+    not recognise the route (elements left after the last path segment; an optional parameter recognised only when
+    the segment was the parameter's *name*), so that the localized segment was copied (`/fr/about`, `/fr/about/5`,
+    `/fr/users`).  Now every one is rewritten and accepted; the former answers are rejected. -/
+example : cfgTrailing.getNewPath "/about".toList [] [] [] 2 (some 0) = .ok "/fr/a-propos".toList ∧
+    Spec.switchOkFull names4 (cfgTrailing.lookup 0) (cfgTrailing.lookup 2) "/about".toList [] [] [] 2 (some 0) "/fr/a-propos".toList = true ∧
     Spec.switchOkFull names4 (cfgTrailing.lookup 0) (cfgTrailing.lookup 2) "/about".toList [] [] [] 2 (some 0) "/fr/about".toList = false := by
   decide
-example : cfgOptional.getNewPath "/about".toList [] [] [] 2 (some 0) = .ok "/fr/about".toList ∧
-    Spec.switchOkFull names4 (cfgOptional.lookup 0) (cfgOptional.lookup 2) "/about".toList [] [] [] 2 (some 0) "/fr/about".toList = false := by
+example : cfgOptional.getNewPath "/about".toList [] [] [] 2 (some 0) = .ok "/fr/a-propos".toList ∧
+    cfgOptional.getNewPath "/about/5".toList [] [] [] 2 (some 0) = .ok "/fr/a-propos/5".toList ∧
+    cfgOptional.getNewPath "/about/id".toList [] [] [] 2 (some 0) = .ok "/fr/a-propos/id".toList ∧
+    Spec.switchOkFull names4 (cfgOptional.lookup 0) (cfgOptional.lookup 2) "/about/5".toList [] [] [] 2 (some 0) "/fr/a-propos/5".toList = true ∧
+    Spec.switchOkFull names4 (cfgOptional.lookup 0) (cfgOptional.lookup 2) "/about/5".toList [] [] [] 2 (some 0) "/fr/about/5".toList = false := by
   decide
-example : cfgOptional.getNewPath "/about/5".toList [] [] [] 2 (some 0) = .ok "/fr/about/5".toList ∧
-    Spec.switchOkFull names4 (cfgOptional.lookup 0) (cfgOptional.lookup 2) "/about/5".toList [] [] [] 2 (some 0) "/fr/about/5".toList = false ∧
-    cfgOptional.getNewPath "/about/id".toList [] [] [] 2 (some 0) = .ok "/fr/a-propos/id".toList := by
+example : cfgSplat.getNewPath "/users".toList [] [] [] 2 (some 0) = .ok "/fr/utilisateurs".toList ∧
+    cfgSplat.getNewPath "/users/a/b".toList [] [] [] 2 (some 0) = .ok "/fr/utilisateurs/a/b".toList ∧
+    Spec.switchOkFull names4 (cfgSplat.lookup 0) (cfgSplat.lookup 2) "/users".toList [] [] [] 2 (some 0) "/fr/utilisateurs".toList = true ∧
+    Spec.switchOkFull names4 (cfgSplat.lookup 0) (cfgSplat.lookup 2) "/users".toList [] [] [] 2 (some 0) "/fr/users".toList = false := by
+  decide
+/-- backtracking: the optional parameter takes a segment only if the rest of the route still matches
+    (`:id?/about` on `/about`: absent; on `/7/about`: present) -/
+example : matchSegs [.optional "id".toList, .static "about".toList] ["about".toList] 0 [] = some [] ∧
+    matchSegs [.optional "id".toList, .static "about".toList] ["7".toList, "about".toList] 0 [] = some [0] ∧
+    matchSegs [.optional "id".toList, .optional "x".toList, .param "p".toList] ["a".toList, "b".toList] 0 [] = some [0] := by
   decide
 
 end I18nVerif.Router
